@@ -3,6 +3,7 @@
   library-level call returns, raises one of the two documented exceptions, or passes the transport's OWN exception through.
 -/
 import WS.Model.SocketGlue
+import WS.Gen.Tables
 namespace WS.Props.C17c
 open WS WS.Model.Glue
 
@@ -141,5 +142,10 @@ theorem C17_glue_send (nb : Bool) (r1 : RawS) (ready : Bool) (r2 : RawS) :
 /-- non-vacuity: a non-blocking socket at end of stream is CLOSED; a blocking one whose first read would block and whose
     `select` comes back ready returns the second read. -/
 example : recv true (.data []) false .osErr = .closed ∧ recv false .wantRead true (.data [1]) = Out.ok [1] := by decide
+
+/-- generated fact: the handlers of the inner `_recv()` come in this order — want-read (wait, read again) BEFORE the errno
+    test of `socket.error`; `SSLWantReadError` IS an OSError, so the other order would re-raise it (`recvInner` reads the
+    want-read case first). -/
+theorem glue_recv_handler_order : Gen.glueRecvHandlers = ["SSLWantReadError", "error"] := by decide
 
 end WS.Props.C17c
